@@ -111,7 +111,7 @@ def unit_storage_sweep():
             def cid_rows(fmt):
                 rows = [["d", "format", fmt]] + ([["d", "encoding", "utf-8"]] if fmt == "delimited" else [])
                 rows += [["f", "id", "", "", "1...5", "Integer", "0...99999"], ["f", "name", "", "x", "...6", "Text", ""], ["f", "kind", "", "", "", "Choice", "a, b"], ["f", "amount", "", "x", "", "Decimal", "0...100"],
-                         ["f", "born", "", "x", "", "DateTime", "DD.MM.YYYY"], ["f", "code", "", "x", "", "Pattern", "a?*"], ["f", "twin", "ab1", "x", "", "Pattern", "a?*"], ["f", "ab", "ab", "x", "", "Choice", "ab, cd"],
+                         ["f", "born", "", "x", "", "DateTime", "DD.MM.YYYY"], ["f", "code", "", "x", "", "Pattern", "a?*"], ["f", "twin", "ab1", "x", "", "Pattern", "a?*"], ["f", "ab", "ab", "x", "", "Choice", "ab, cd"], ["f", "city", "Z\u00fcrich", "x", "", "Choice", "Z\u00fcrich, Krak\u00f3w, \u20ac"],
                          ["c", "u", "IsUnique", "id"]]
                 return rows
             # (1) the same CID contents stored three ways load into equivalent interfaces
@@ -127,7 +127,7 @@ def unit_storage_sweep():
             res.append(sweep("C17/storage/the same CID stored as CSV, ODS and Excel loads into equivalent interfaces", cid_cases(), cid_check, "bounded", "3 CIDs (formats delimited / excel / ods; 6 field types, 1 check) x storage {csv, ods, xlsx}",
                              describe=lambda f: {"cid_format": f}, function="interface.Cid + rowio.auto_rows", unit="C17.storage", props=["C17"]))
             # (2) the same table stored three ways gets the same verdicts and values
-            good = ["17", "abc", "a", "1.5", "31.12.2020", "ab1", "ab1", "ab"]      # adjacent equal cells: stored as column runs by the ODF encoder
+            good = ["17", "abc", "a", "1.5", "31.12.2020", "ab1", "ab1", "ab", "Krak\u00f3w"]      # adjacent equal cells: stored as column runs by the ODF encoder
             variants = [("id", 0, ["x", "123456", "-1", "", "17 "]), ("name", 1, ["toolong", ""]), ("kind", 2, ["c", "A", ""]), ("amount", 3, ["100.5", "abc", "", "NaN", "1,5"]), ("born", 4, ["31.02.2020", "", "2020-12-31"]), ("code", 5, ["b", "", " ab1"]), ("ab", 7, ["cd", "ef", " ab"])]
             def tables():
                 yield [list(good)]
@@ -152,6 +152,28 @@ def unit_storage_sweep():
             res.append(sweep("C17/storage/the same table stored as delimited text, ODS and Excel gets the same verdicts", tables(), data_check, "bounded",
                              "tables of 1-2 rows: an accepted row with one cell replaced by each of 20 rejected / empty variants, a duplicate key, a short row x CIDs differing only in Format x storage {csv, ods, xlsx} (text cells)",
                              describe=lambda t: {"table": t}, function="validio.rows over the three readers", unit="C17.storage", props=["C17"]))
+            # (3) the Sheet property selects the same sheet for ODS and Excel
+            def sheet_check(k):
+                import xlsxwriter as xw
+                sheets = [[["x", "first"]], [["1", "second"], ["2", "zwei"]], [["3", "third"]]]
+                outs = {}
+                for fmt in ("ods", "excel"):
+                    n[0] += 1; p = os.path.join(tmp, "s%d.%s" % (n[0], "ods" if fmt == "ods" else "xlsx"))
+                    if fmt == "ods": write_ods(p, encode_ods(sheets, set()))
+                    else:
+                        wb = xw.Workbook(p)
+                        for sh in sheets:
+                            ws = wb.add_worksheet()
+                            for y, r in enumerate(sh):
+                                for x, v in enumerate(r): ws.write_string(y, x, v)
+                        wb.close()
+                    cid = interface.Cid(); cid.read("cid", [["d", "format", fmt], ["d", "sheet", str(k)], ["f", "id", "", "", "", "Integer"], ["f", "name"]])
+                    outs[fmt] = [("E",) if isinstance(x, errors.DataError) else x for x in validio.rows(cid, p, on_error="yield")]
+                want = [("E",)] if k == 1 else [r for r in sheets[k - 1]]
+                if outs["ods"] != want or outs["excel"] != want: return {"expected": "both formats read sheet %d: %r" % (k, want), "observed": outs}
+                return None
+            res.append(sweep("C17/storage/the Sheet property selects the same sheet under ods and excel", [1, 2, 3], sheet_check, "bounded", "a 3-sheet document stored as ODS and xlsx x Sheet 1..3",
+                             describe=lambda k: {"sheet": k}, function="validio.rows over ods_rows / excel_rows", unit="C17.storage", props=["C17"]))
             # K-5: the documented Excel special case
             def k5():
                 outs = {}
